@@ -259,9 +259,49 @@ func genBulk(g *simrt.Rng, tier string) *FlowPlan {
 	return p
 }
 
+// genAckRace is the "acknowledgement under back-pressure while the channel ends" profile:
+// tiny write queue and socket buffers (every frame has to wait for room), small windows (every
+// message is acknowledged), handlers that receive with their own channel context, clients that
+// close right after their last message, and a few streaming channels that keep the server's
+// write queue contended.
+func genAckRace(g *simrt.Rng, tier string) *FlowPlan {
+	p := &FlowPlan{Env: genEnv(g, tier)}
+	p.Opt.WriteQueue = simrt.Pick(g, 1, 16)
+	p.Net.BufCap = simrt.Pick(g, 16, 64)
+	p.Opt.Window = simrt.Pick(g, 16, 40, 64, 200)
+	p.Opt.Compression = false
+	if p.Sched.Policy == simrt.PolicyRandom && p.Sched.PYield == 0 {
+		p.Sched.PYield = 0.05
+	}
+	p.Clients = []ClientPlan{{Kind: "connect"}}
+	w := p.Opt.Window
+	for i := 2 + g.IntN(2); i > 0; i-- { // streams towards the client
+		c := ChanPlan{End: EndServerClose, SrvChanCtx: true}
+		c.C2S = []Msg{{Size: hdrSize + g.IntN(8)}}
+		c.S2C = genMsgs(g, 6+g.IntN(10), w, 3*w, false, false)
+		c.EndRecv = 1
+		p.Channels = append(p.Channels, c)
+	}
+	for i := 2 + g.IntN(4); i > 0; i-- { // victims: a few messages, then the close right behind them
+		c := ChanPlan{End: simrt.Pick(g, EndClientClose, EndClientFree), SrvChanCtx: true}
+		c.C2S = []Msg{{Size: hdrSize + g.IntN(8)}}
+		for k := 1 + g.IntN(3); k > 0; k-- {
+			c.C2S = append(c.C2S, Msg{Size: w/2 + g.IntN(w)})
+		}
+		if c.End == EndClientClose && g.Bool(0.7) {
+			c.ClosePayload = 1 + g.IntN(w)
+		}
+		p.Channels = append(p.Channels, c)
+	}
+	return p
+}
+
 func (mpxflowScn) Generate(g *simrt.Rng, tier string) any {
 	if g.Bool(0.01) {
 		return genBulk(g, tier)
+	}
+	if g.Bool(0.05) {
+		return genAckRace(g, tier)
 	}
 	// C03 ends channels in an orderly way: the ending side has received everything it
 	// waits for. (Ending at arbitrary instants against in-flight traffic is C06's scenario.)
